@@ -290,6 +290,10 @@ pub fn gen_c20(tier: &str, seed: u64, out: &mut Vec<String>) {
         let (code, _) = assemble(&prog, CODE);
         raw.push(format!("newraw {} {:x} {:x}", hex(&code), CODE, CODE));
         dec_all(&code, CODE, &mut raw);
+        if rng.chance(1, 6) {
+            // an area that merely looks like a stack (by name) is there already: the stack pointer still comes from init_stack
+            raw.push(format!("zero {:x} {:x} Stack", *rng.pick(&[0x8000u64, 0x10_0000]), *rng.pick(&[0x100u64, 0x200, 0x1000])));
+        }
         raw.push("stack 200".into());
         if rng.chance(1, 3) {
             // a failing hook: the error (and its text) is a function of the program and the written registers only
